@@ -22,6 +22,10 @@ type ShimHooks struct {
 	LockPoints   bool
 	PoolPoints   bool
 	AtomicPoints bool
+	// LockFilter, if set, restricts lock scheduling points (and the lock model) to the locks it
+	// accepts; AtomicThreads, if set, restricts atomic scheduling points to those threads.
+	LockFilter    func(m interface{}) bool
+	AtomicThreads map[int]bool
 	// OnReadSection is called when a read lock has been granted (enter=true) and right before it is
 	// released (enter=false).
 	OnReadSection func(tid int, m interface{}, enter bool)
@@ -35,7 +39,7 @@ func InstallShimHooks(s *sched.Sched) *ShimHooks {
 	h := &ShimHooks{S: s, locks: map[interface{}]*shimLock{}, pools: map[*vsync.Pool][]interface{}{}, names: map[interface{}]int{}}
 	vsync.H = h
 	vatomic.H = func(op string, addr interface{}) {
-		if h.AtomicPoints && h.S.Current() >= 0 {
+		if h.AtomicPoints && h.S.Current() >= 0 && (h.AtomicThreads == nil || h.AtomicThreads[h.S.Current()]) {
 			h.S.Point("atomic-"+op+h.name(addr), nil)
 		}
 	}
@@ -67,7 +71,7 @@ func (h *ShimHooks) lock(m interface{}) *shimLock {
 
 func (h *ShimHooks) Acquire(m interface{}, write bool) {
 	tid := h.S.Current()
-	if tid < 0 || !h.LockPoints {
+	if tid < 0 || !h.LockPoints || (h.LockFilter != nil && !h.LockFilter(m)) {
 		return
 	}
 	l := h.lock(m)
@@ -94,7 +98,7 @@ func (h *ShimHooks) Acquire(m interface{}, write bool) {
 
 func (h *ShimHooks) Acquired(m interface{}, write bool) {
 	tid := h.S.Current()
-	if tid < 0 || !h.LockPoints {
+	if tid < 0 || !h.LockPoints || (h.LockFilter != nil && !h.LockFilter(m)) {
 		return
 	}
 	if !write && h.OnReadSection != nil {
@@ -104,7 +108,7 @@ func (h *ShimHooks) Acquired(m interface{}, write bool) {
 
 func (h *ShimHooks) Release(m interface{}, write bool) {
 	tid := h.S.Current()
-	if tid < 0 || !h.LockPoints {
+	if tid < 0 || !h.LockPoints || (h.LockFilter != nil && !h.LockFilter(m)) {
 		return
 	}
 	l := h.lock(m)
